@@ -330,8 +330,12 @@ static void check_dtostre_text(valref_t * vr, int site, int p, const char * text
     if (d == 0) { CNT(K_DT_EXACT); return; }
     if (d == 1) { CNT(K_DT_ONE_UNIT); if (T.nsig < R->nstrip) CNT(K_DT_ONE_UNIT_SHORTER); return; }
     {
+        /* prefix: the text is the correctly rounded decimal cut short.  For 2..3 units this shape is also what a digit generator
+         * that is 2..3 units low produces when its digits end in zeros, so there the input shape decides the label: the cut-short
+         * class lives in fixed notation with leading zeros (0.0ddd), the accuracy class far away from it (|exponent| > 15) */
         int prefix = T.X == R->X && T.nsig < R->nstrip && memcmp(T.sig, R->dig, (size_t) T.nsig) == 0;
-        if (d <= ACC_MAX_UNITS) {
+        int leadzero = !T.has_exp && text[vr->neg] == '0' && text[vr->neg + 1] == '.';
+        if (d <= ACC_MAX_UNITS && !(prefix && leadzero)) {
             kval[K_ACC_P01 + p - 1] += site == S_DTOSTRE;
             if (site != S_DTOSTRE) CNT(K_ACC_SITE_HELPER);
             if (site == S_DTOSTRE) { if (abs(R->X) < 100) CNT(K_ACC_EXP_LT100); else CNT(K_ACC_EXP_GE100); }
